@@ -103,9 +103,9 @@ def run(ctx):
     ]
     ok_static, log = ctx.ensure_static()
     if not ok_static:
-        ctx.obligation("static-lib", False, log[-1500:])
-        ctx.violation("static-lib-build", "coq/lib or coq/model does not build", {"log": log[-3000:]}, found_input=False)
-        return
+        # the C16 files import nothing from EFLib / EFModel (stdlib only), so a library another
+        # property broke does not stop this check
+        ctx.log("note: coq/lib or coq/model does not build at the moment; C16 does not depend on them, continuing")
     # ---- 1. translate --------------------------------------------------------------------
     try:
         tr = T_res.translate(ctx.repo)
